@@ -137,6 +137,17 @@ def check(tier, seed):
                     res.violation('CFG-VALGET: editing one value changed bytes outside that pair\'s value (or nothing)', {'property': 'C08', 'input': dict(desc, edited=j), 'after': C.hexs(after)}, 'c08-valget-edit')
             except Exception as e:
                 res.violation('CFG-VALGET: editing one value raised ' + type(e).__name__, {'property': 'C08', 'input': dict(desc, edited=j)}, 'c08-valget-edit-exn')
+        # CFG-VALSET: a value changed through the caller's item object after the frame was built is what gets encoded
+        from ubxlib.cfgkeys import CfgKeyData as CK_
+        from ubxlib.ubx_cfg_valset import UbxCfgValSetAction
+        for _ in range(10 if tier == 'quick' else 300):
+            items = [CK_.from_key(k, v) for k, v in ((0x20110021, rng.randrange(10)), (0x30210001, rng.randrange(1000)), (0x10310001, True))]
+            fr = UbxCfgValSetAction(list(items))
+            items[1].value = rng.randrange(1000, 60000)
+            fr.f.data0 = rng.randrange(10)
+            fr.pack()
+            toks = [K.item_token(it.group_id, it.item_id, it.bits, it.signed, it.value) for it in items]
+            cases.append(Case('valset-edit-after-build', 'valset ' + ' '.join(toks), C.hexs(fr.data), {'message': 'UbxCfgValSetAction', 'items': toks}, kind='valset/edit'))
         res.compare(cases)
         res.oblige('correspondence pack()/assignment vs model and oracle (Tie A)', not res.disagreements)
         res.oblige('implementation-only locality / value-return checks', not res.violations)
